@@ -72,6 +72,22 @@ pub(crate) const CHUNK_FLOOR_ASYNC: usize = if MODEL_CHECK { 4 } else { 16 };
 // loom's branch cap, and parking is the path we want modeled).
 pub(crate) const SYNC_SPIN_LIMIT: usize = if crate::internal::sync::IS_LOOM { 1 } else { 200 };
 
+/// Tickets handed out but not yet covered by `counter` (progress / drained), from a
+/// tail snapshot taken BEFORE `counter` was loaded. The two loads are not one atomic
+/// snapshot: while the caller sits between them other producers may claim and the
+/// consumer may drain past the stale tail, so `counter` can be ahead of `tail`. That
+/// means "nothing outstanding", not the ~usize::MAX a plain `wrapping_sub` yields
+/// (which made `try_send` report Full, and `len()` report `cap`, on an empty channel).
+#[inline]
+fn outstanding(tail: usize, counter: usize) -> usize {
+  let d = tail.wrapping_sub(counter);
+  if d > usize::MAX / 2 {
+    0
+  } else {
+    d
+  }
+}
+
 /// Cap-1-only bounded spin on the wake flag before a sync park.
 #[inline]
 pub(crate) fn spin_before_park_cap1(cap: usize, notified: &AtomicBool) {
@@ -268,11 +284,8 @@ impl<T> Shared<T> {
   /// Approximate pre-claim gate: racy by design (the claim re-verifies).
   #[inline]
   pub(crate) fn window_open(&self) -> bool {
-    self
-      .g_tail
-      .load(Ordering::Relaxed)
-      .wrapping_sub(self.progress.load(Ordering::Acquire))
-      < self.cap
+    let tail = self.g_tail.load(Ordering::Relaxed);
+    outstanding(tail, self.progress.load(Ordering::Acquire)) < self.cap
   }
 
   // --- cold-path mirrors gated on `drained` instead of `progress` ---
@@ -292,11 +305,8 @@ impl<T> Shared<T> {
 
   #[inline]
   fn window_open_cold(&self) -> bool {
-    self
-      .g_tail
-      .load(Ordering::Relaxed)
-      .wrapping_sub(self.drained.load(Ordering::Acquire))
-      < self.cap
+    let tail = self.g_tail.load(Ordering::Relaxed);
+    outstanding(tail, self.drained.load(Ordering::Acquire)) < self.cap
   }
 
   /// Cold-path retry for `try_send` after `try_send_now` reported the window
@@ -319,7 +329,7 @@ impl<T> Shared<T> {
     let run_cap = self.run_cap.load(Ordering::Relaxed).max(1);
     let g = self.g_tail.load(Ordering::Relaxed);
     let d = self.drained.load(Ordering::Acquire);
-    let slack = self.cap.saturating_sub(g.wrapping_sub(d));
+    let slack = self.cap.saturating_sub(outstanding(g, d));
     let m = remaining.min(slack).min(run_cap);
     if m == 0 {
       return (0, 0, 0);
@@ -366,7 +376,7 @@ impl<T> Shared<T> {
   pub(crate) fn len(&self) -> usize {
     let tail = self.g_tail.load(Ordering::Acquire);
     let drained = self.drained.load(Ordering::Acquire);
-    tail.wrapping_sub(drained).min(self.cap)
+    outstanding(tail, drained).min(self.cap)
   }
 
   pub(crate) fn is_empty(&self) -> bool {
@@ -673,7 +683,7 @@ impl<T> Shared<T> {
     let run_cap = self.run_cap.load(Ordering::Relaxed).max(1);
     let g = self.g_tail.load(Ordering::Relaxed);
     let p = self.progress.load(Ordering::Acquire);
-    let slack = self.cap.saturating_sub(g.wrapping_sub(p));
+    let slack = self.cap.saturating_sub(outstanding(g, p));
     let m = remaining.min(slack).min(run_cap);
     if m == 0 {
       return (0, 0, 0);
